@@ -84,11 +84,12 @@ def _clip(s, max_len, fname):
     return s
 
 
-def markup_text(max_len=24, fname=False):
-    """Non-empty str of <= max_len code points (see module docstring)."""
+def markup_text(max_len=24, fname=False, min_tokens=1):
+    """Non-empty str of <= max_len code points (see module docstring). `min_tokens` > 1 drops the single-token
+    shapes (used to make parallel shards draw different strings)."""
     tok = _token()
     # (blank-only strings come from `blank` below; a blank-only token list becomes a blank-edged string)
-    general = st.lists(tok, min_size=1, max_size=7).map("".join).map(
+    general = st.lists(tok, min_size=min_tokens, max_size=6 + min_tokens).map("".join).map(
         lambda x: x if x.strip(" \t\r\n") else "a" + x)
     single = st.one_of(st.sampled_from(MARKUP + ["\r", "\n", "\t", " ", "]]>", "&amp;", "%s", "{}"]), tok)
     # one interesting token embedded in plain text (keeps the failure cause unambiguous)
@@ -99,6 +100,10 @@ def markup_text(max_len=24, fname=False):
                         st.sampled_from([30, 60, 120, 200])).map(lambda t: (t[0] * (t[1] // max(1, len(t[0])) + 1))[:t[1]])
     nonblank = st.one_of(general, general, general, general, embedded, embedded, embedded, single, single,
                          longish).map(lambda x: x if x.strip(" \t\r\n") else "a" + x)
+    if min_tokens > 1:
+        nonblank = st.one_of(general, general, general, general, general, embedded, longish).map(
+            lambda x: x if x.strip(" \t\r\n") else "a" + x)
+        return st.one_of(*([nonblank] * 12 + [blank])).map(lambda x: _clip(x, max_len, fname)).filter(lambda x: x != "")
     s = st.one_of(*([nonblank] * 6 + [blank]))
     return s.map(lambda x: _clip(x, max_len, fname)).filter(lambda x: x != "")
 
